@@ -85,3 +85,118 @@ def selftest():
     assert to_str(1, 5) == "10000" and bitlist(1, 5) == [1, 0, 0, 0, 0]
     assert [rev8(x) for x in (1, 2, 0x80, 0xf0)] == [0x80, 0x40, 1, 0x0f]
     return "docstring examples of Bits/load reproduced by the model"
+
+
+# ---------------------------------------------------------------------------
+# operators (C08).  Operands are (value, size) pairs; an int operand counts with its bit length.
+
+def as_pair(x):
+    return x if isinstance(x, tuple) else (x, x.bit_length())
+
+
+def binop(op, a, b):
+    (x, m), (y, n) = as_pair(a), as_pair(b)
+    w = max(m, n)
+    mask = (1 << w) - 1
+    if op == "+":
+        return (x + y) & mask, w
+    if op == "-":
+        return (x - y) & mask, w
+    if op == "&":
+        return x & y, w
+    if op == "|":
+        return x | y, w
+    if op == "^":
+        return x ^ y, w
+    raise ValueError(op)
+
+
+def neg(a):
+    x, m = a
+    return (-x) & ((1 << m) - 1), m
+
+
+def inv(a):
+    x, m = a
+    return x ^ ((1 << m) - 1), m
+
+
+def mul(a, b):
+    (x, m), (y, _) = a, as_pair(b)
+    return (x * y) & ((1 << m) - 1), m
+
+
+def shl(a, k):
+    x, m = a
+    return (x << k) & ((1 << m) - 1), m
+
+
+def shr(a, k):
+    x, m = a
+    return x >> k, m
+
+
+def rol(a, k):
+    x, m = a
+    if m == 0:
+        return a
+    k %= m
+    return ((x << k) | (x >> (m - k))) & ((1 << m) - 1), m
+
+
+def ror(a, k):
+    x, m = a
+    if m == 0:
+        return a
+    return rol(a, (m - k % m) % m)
+
+
+def concat(a, b):
+    (x, m), (y, n) = as_pair(a), as_pair(b)
+    return x | (y << m), m + n
+
+
+def split(a, k, bigend=False):
+    x, m = a
+    out = []
+    i = 0
+    while i < m:
+        w = min(k, m - i)
+        out.append(((x >> i) & ((1 << w) - 1), w))
+        i += k
+    return out[::-1] if bigend else out
+
+
+def zeroextend(a, size):
+    x, m = a
+    return (x, size) if size > m else a
+
+
+def signextend(a, size):
+    x, m = a
+    if size <= m:
+        return a
+    if m and (x >> (m - 1)) & 1:
+        x |= ((1 << size) - 1) ^ ((1 << m) - 1)
+    return x, size
+
+
+def select(a, idx):
+    """bits at the listed positions, in order"""
+    x, m = a
+    v = 0
+    for j, i in enumerate(idx):
+        v |= ((x >> i) & 1) << j
+    return v, len(idx)
+
+
+def assign(a, idx, value):
+    """write bit j of value to position idx[j] (sequentially)"""
+    x, m = a
+    for j, i in enumerate(idx):
+        x = (x & ~(1 << i)) | (((value >> j) & 1) << i)
+    return x, m
+
+
+def hw(a):
+    return bin(a[0]).count("1")
